@@ -210,11 +210,61 @@ pub fn outcome_of(res: c2pa::Result<Reader>) -> Outcome {
         Ok(r) => Outcome {
             state: format!("{:?}", r.validation_state()),
             error: None,
-            report: norm_report(&r.json()),
+            report: report_with_resources(&r),
             codes: codes_of(&r),
         },
         Err(e) => Outcome { state: "Err".into(), error: Some(err_kind(&e)), report: Value::Null, codes: vec![] },
     }
+}
+
+/// The normalised report plus, under `__resources`, what `Reader::resource_to_stream` hands out for
+/// every resource identifier the report mentions (sha256 prefix + length, or the error kind): the
+/// bytes of thumbnails / ingredient data / data boxes are reported manifest content too.
+pub fn report_with_resources(r: &Reader) -> Value {
+    let mut v: Value = match serde_json::from_str(&r.json()) {
+        Ok(v) => v,
+        Err(_) => return norm_report(&r.json()),
+    };
+    fn ids(v: &Value, out: &mut std::collections::BTreeSet<String>) {
+        match v {
+            Value::Object(m) => {
+                if let Some(Value::String(s)) = m.get("identifier") {
+                    out.insert(s.clone());
+                }
+                for x in m.values() {
+                    ids(x, out);
+                }
+            }
+            Value::Array(a) => a.iter().for_each(|x| ids(x, out)),
+            _ => {}
+        }
+    }
+    let mut set = std::collections::BTreeSet::new();
+    ids(&v, &mut set);
+    let mut res = Map::new();
+    for id in set.into_iter().take(64) {
+        let mut buf = Cursor::new(Vec::new());
+        let d = match r.resource_to_stream(&id, &mut buf) {
+            Ok(_) => {
+                let b = buf.into_inner();
+                // (for some identifiers, e.g. v1 data boxes, the SDK hands out the whole manifest store: that
+                // is not resource content and changes with every store edit, so it is recorded as such)
+                if crate::jumbf::parse_store(&b).map(|t| t.label.as_deref() == Some("c2pa")).unwrap_or(false) {
+                    res.insert(id, Value::String("whole-manifest-store".into()));
+                    continue;
+                }
+                let mut h = Sha256::new();
+                h.update(&b);
+                format!("{}:{}", b.len(), hex::encode(&h.finalize()[..8]))
+            }
+            Err(e) => format!("Err:{}", err_kind(&e)),
+        };
+        res.insert(id, Value::String(d));
+    }
+    if let Value::Object(m) = &mut v {
+        m.insert("__resources".into(), Value::Object(res));
+    }
+    norm_report_value(&v)
 }
 
 pub fn read_bytes(ctx: Context, format: &str, bytes: &[u8]) -> Outcome {
